@@ -111,6 +111,12 @@ def cases(tier, seed):
     out += [{"kind": "exact", "n": n} for n in range(2, 41)]
     # stripes of n so that each worker has similar work
     ns = list(range(2, nmax + 1))
+    # the exact prior is the default below 10 000 samples: a lattice of large n on top of the complete range
+    # (linear-space underflow of Pr(a|k,n) ~ 2^-n starts near n = 1030..1100)
+    big = [400, 600, 800, 1000, 1030, 1070, 1100, 1200, 1500, 2000]
+    if tier != "quick":
+        big = list(range(1010, 1201, 10)) + list(range(1300, 3001, 100)) + [4000, 5000]
+    ns += [n for n in big if n > nmax]
     for n in ns:
         out.append({"kind": "tsdate", "n": n})
     out.sort(key=lambda c: -c["n"] if c["kind"] != "chain" else -c["n"] * 50)
@@ -118,7 +124,7 @@ def cases(tier, seed):
         "cases": out,
         "states": 0,
         "transitions": 0,
-        "bound": f"partition chain n<={cmax}; exact rationals n<=40; every (n,k) with 2<=k<=n<={nmax}, lognorm and gamma",
+        "bound": f"partition chain n<={cmax}; exact rationals n<=40; every (n,k) with 2<=k<=n<={nmax}, plus every k for n in {[n for n in big if n > nmax]}; lognorm and gamma",
         "exhaustive": True,
     }
 
@@ -169,7 +175,8 @@ def run(case):
             e1 = abs(mn - rm) / rm
             e2 = abs(vr - rv) / rv
             worst = max(worst, e1, e2)
-            if not (e1 <= 1e-10 and e2 <= 1e-10):
+            tol = 1e-10 if n <= 1000 else 1e-8  # double-precision log-space recursion of depth n
+            if not (e1 <= tol and e2 <= tol):
                 viol.append(
                     {"kind": "moment_mismatch", "msg": f"n={n} k={k} {dist}: mean {mn!r} vs {rm!r} (rel {e1:.2e}); var {vr!r} vs {rv!r} (rel {e2:.2e})", "facts": {"dist": dist}}
                 )
@@ -181,7 +188,7 @@ def run(case):
                 rb = float(M[k] / V[k])
             ea = abs(al - ra) / max(abs(ra), 1e-3)
             eb = abs(be - rb) / max(abs(rb), 1e-300)
-            if not (ea <= 1e-9 and eb <= 1e-9):
+            if not (ea <= 10 * tol and eb <= 10 * tol):
                 viol.append({"kind": "parameter_mismatch", "msg": f"n={n} k={k} {dist}: alpha {al!r} vs {ra!r}; beta {be!r} vs {rb!r}", "facts": {"dist": dist}})
             keys.append(f"{n},{k},{dist}")
         # row 1: a "coalescence node" ending in one sample has mean=var=0
